@@ -117,7 +117,7 @@ class ReadWatch:
         builtins.open, io.open, pathlib.Path.read_text = self._open, self._ioopen, self._rt
 
 
-def run_doc(kinds, raw_enabled, file_ins, real=False, suppress=()):
+def run_doc(kinds, raw_enabled, file_ins, real=False, suppress=(), route="overrides"):
     """Returns (doc, warnings, reads, text)."""
     with tempfile.TemporaryDirectory(prefix="symx_c20_") as d:
         for name, content in (("sentinel.md", "FILEPAYLOAD md *text*\n"), ("sentinel.rst", "FILEPAYLOAD rst\n"), ("sentinel.csv", "FILEPAYLOAD,csv\n"), ("sentinel.html", "<p>FILEPAYLOAD html</p>\n")):
@@ -128,9 +128,42 @@ def run_doc(kinds, raw_enabled, file_ins, real=False, suppress=()):
         lines += ["Mend marker"]
         text = "\n".join(lines) + "\n"
         # the standard-include root: make docutils' "<...>" form resolve inside d is not needed: absolute path is given
+        base_over = {"myst_enable_extensions": ["strikethrough", "tasklist"], "report_level": 2, "myst_suppress_warnings": list(suppress)}
         with ReadWatch(d) as w:
-            doc, warn = CR.publish(text, {"raw_enabled": raw_enabled, "file_insertion_enabled": file_ins, "myst_enable_extensions": ["strikethrough", "tasklist"], "report_level": 2, "myst_suppress_warnings": list(suppress)}, real=real,
-                                   source=os.path.join(d, "src.md"))
+            if route == "overrides":
+                doc, warn = CR.publish(text, dict(base_over, raw_enabled=raw_enabled, file_insertion_enabled=file_ins), real=real, source=os.path.join(d, "src.md"))
+            elif route == "conf-parsers":
+                # the documented place for the two switches: the [parsers] section of a docutils configuration file
+                conf = os.path.join(d, "docutils.conf")
+                open(conf, "w").write("[parsers]\nraw_enabled: %s\nfile_insertion_enabled: %s\n" % ("yes" if raw_enabled else "no", "yes" if file_ins else "no"))
+                saved = os.environ.get("DOCUTILSCONFIG")
+                os.environ["DOCUTILSCONFIG"] = conf
+                try:
+                    doc, warn = CR.publish(text, dict(base_over), real=real, source=os.path.join(d, "src.md"))
+                finally:
+                    if saved is None:
+                        os.environ.pop("DOCUTILSCONFIG", None)
+                    else:
+                        os.environ["DOCUTILSCONFIG"] = saved
+            else:
+                # a document that carries only generic settings: docutils' secure fallback disables both switches at parse time
+                import io
+                from docutils.frontend import get_default_settings
+                from docutils.utils import new_document
+
+                if real:
+                    from myst_parser.parsers.docutils_ import Parser
+                else:
+                    Parser = CR.setup_pipeline()["docutils_"].Parser
+                settings = get_default_settings()
+                stream = io.StringIO()
+                settings.warning_stream = stream
+                settings.report_level = 2
+                settings.myst_enable_extensions = ["strikethrough", "tasklist"]
+                settings.myst_suppress_warnings = list(suppress)
+                doc = new_document(os.path.join(d, "src.md"), settings)
+                Parser().parse(text, doc)
+                warn = stream.getvalue()
         return doc, warn, list(w.reads), text
 
 
@@ -177,7 +210,7 @@ def check(doc, warn, reads, kinds, raw_enabled, file_ins):
 SUPPRESS = [[], ["myst"], ["myst.*", "docutils"]]
 
 
-def make(eng, k, pool, with_suppress=False, with_zero=False):
+def make(eng, k, pool, with_suppress=False, with_zero=False, routes=("overrides",)):
     setup()
     c = CR.Choice(eng, width=31)
     state = {}
@@ -192,9 +225,14 @@ def make(eng, k, pool, with_suppress=False, with_zero=False):
         if with_zero and c.choose(2):
             # the settings may be spelled 0 instead of False (settings_overrides, config files with integer values)
             raw_enabled, file_ins = (raw_enabled or 0), (file_ins or 0)
-        state.update(kinds=kinds, raw_enabled=raw_enabled, file_ins=file_ins, suppress=sup)
+        route = routes[c.choose(len(routes))] if len(routes) > 1 else routes[0]
+        if route == "generic":
+            raw_enabled = file_ins = False  # nothing is configured: the fallback applies
+            if any(k_.startswith("evalrst") for k_ in kinds):
+                raise core.PathAbort("docutils' own rST parser needs its parser settings (pep_references ...): not available with generic settings")
+        state.update(kinds=kinds, raw_enabled=raw_enabled, file_ins=file_ins, suppress=sup, route=route)
         try:
-            doc, warn, reads, text = run_doc(kinds, raw_enabled, file_ins, suppress=sup)
+            doc, warn, reads, text = run_doc(kinds, raw_enabled, file_ins, suppress=sup, route=route)
         except Exception as exc:  # noqa
             import traceback
 
@@ -215,6 +253,8 @@ def families(tier, seed):
     q = tier == "quick"
     F = []
     F.append(Family("single", make, "one construct from %r + %r x 4 setting combinations x myst_suppress_warnings in %r (refusals must not depend on warning suppression)" % (RAW, FILES, SUPPRESS), args=dict(k=1, pool=RAW + FILES + ["para"], with_suppress=True, with_zero=True), nontrivial="refused", max_forks=100000))
+    F.append(Family("single-routes", make, "one construct x the two switches given through a docutils.conf [parsers] section, or not at all (a document with generic settings: docutils' secure fallback)",
+                    args=dict(k=1, pool=RAW + FILES + ["para"], routes=("conf-parsers", "generic")), nontrivial="refused", max_forks=100000))
     F.append(Family("pairs-raw", make, "two constructs from the raw carriers, a paragraph or a heading (raw content before / after / between sections) x 4 settings", args=dict(k=2, pool=RAW + ["para", "heading"]), nontrivial="refused", max_forks=100000))
     F.append(Family("pairs-files", make, "two constructs from the file readers x 4 settings x the disabled value spelled False or 0", args=dict(k=2, pool=FILES + ["para"], with_zero=True), nontrivial="refused", max_forks=100000, required=not q))
     if not q:
@@ -226,7 +266,7 @@ def families(tier, seed):
 def replay(label, witness):
     kinds, raw_enabled, file_ins = witness["kinds"], witness["raw_enabled"], witness["file_ins"]
     try:
-        doc, warn, reads, text = run_doc(kinds, raw_enabled, file_ins, real=True, suppress=witness.get("suppress", []))
+        doc, warn, reads, text = run_doc(kinds, raw_enabled, file_ins, real=True, suppress=witness.get("suppress", []), route=witness.get("route", "overrides"))
     except Exception as e:  # noqa
         return ("C20/exception:%s" % type(e).__name__, "constructs %r raw_enabled=%s file_insertion=%s: %r" % (kinds, raw_enabled, file_ins, e))
     err = check(doc, warn, reads, kinds, raw_enabled, file_ins)
